@@ -22,11 +22,15 @@ RULE = (
     "runs over workflows executed by 2-4 worker threads interleaved at SQL-statement granularity while a further thread "
     "issues the cancel at a random point; there a task execution beginning after tau is exempt only when its RunTask "
     "delivery had been polled before tau (handler already in flight), and a non-CANCELED final status only when the "
-    "CompleteWorkflow that wrote it had been polled before tau. Non-trivial = "
+    "CompleteWorkflow that wrote it had been polled before tau. An accepted cancel is sticky: is_canceled never goes back "
+    "to 0 (checked on every run); and CancelWorkflow x the handler next in line (every handler type, from every step of "
+    "three small workflows, also after pause / park / unpause so that the partner is a ResumeStage) run as a designated "
+    "pair under every <= 2-preemption schedule (sampled): the partner read the workflow before the cancel existed and "
+    "must not undo it; afterwards no delivery runs a task body and the workflow ends final. Non-trivial = "
     "cancel became durable while >=1 stage was unfinished; distinct = (spec, multiset of stage statuses at tau)."
 )
 ASSUMPTIONS = ["SQLite backend", "'begins executing' = Task.execute entry (ledger record) compared by audit sequence number"]
-MIN_OBS = {"cancels_while_unfinished": {"quick": 500, "thorough": 8000}, "interleaved_runs": {"quick": 80, "thorough": 1000}}
+MIN_OBS = {"cancels_while_unfinished": {"quick": 500, "thorough": 8000}, "interleaved_runs": {"quick": 80, "thorough": 1000}, "cancel_pair_runs_with_switch": {"quick": 500, "thorough": 3000}}
 TIMEOUT = {"quick": 600, "thorough": 3000}
 
 
@@ -52,6 +56,9 @@ def gen_cases(tier: str, seed: int) -> list[dict]:
             cases.append({"spec_i": i, "order": order, "seed": seed})
     for i in range(100 if tier == "quick" else 1200):
         cases.append({"kind": "race", "spec_i": i, "seed": seed})
+    for sp in range(len(PAIR_SPECS)):
+        for paused in (False, True):
+            cases.append({"kind": "pair", "spec": sp, "paused": paused, "seed": seed, "sample": 10 if tier == "quick" else 60})
     return cases
 
 
@@ -67,6 +74,10 @@ def cancel_oracle(spec: dict, run, in_flight_ords: set | None = None) -> tuple[l
     if tau is None:
         obs["cancel_after_completion"] += 1
         return out, obs, keys
+    undone = [a for a in run.audit if a["kind"] == "cancel" and a["seq"] > tau and str(a["d"]) == "0"]
+    if undone:
+        groups_ = oracles.Groups(run.commits)
+        out.append(viol("C17/accepted-cancel-undone", f"is_canceled went back to 0 at seq {undone[0]['seq']} (written by {groups_.tag(groups_.of(undone[0]['seq']))}) after the cancel was durable at seq {tau}"))
     tl = oracles.Timeline(run.audit)
     ids = oracles.stage_ids(run.audit)
     top = {s["ref"] for s in spec["stages"]}
@@ -251,7 +262,121 @@ def _race(case: dict) -> dict:
     return {"violations": uniq, "obs": dict(obs), "keys": sorted("race:" + x for x in k)}
 
 
+PAIR_SPECS = [lambda: specs.chain(2), lambda: specs.diamond(), lambda: specs.multitask()]
+
+
+def _pair(case: dict) -> dict:
+    """CancelWorkflow x whatever handler is next, as two designated handler invocations interleaved at statement
+    granularity (every schedule with <= 2 preemptions, sampled), from EVERY step of a FIFO run - optionally of a run
+    that was paused, parked and unpaused first (so the partner is a ResumeStage).  The partner read the workflow
+    before the cancel existed; whatever it writes afterwards must not undo the accepted cancel, and after the
+    rest has been drained the workflow is final and still flagged canceled."""
+    import os
+
+    from .. import interleave as il
+    from ..world import World
+
+    spec = PAIR_SPECS[case["spec"]]()
+    rng = random.Random(case["seed"] * 613 + case["spec"] * 7 + (1 if case["paused"] else 0))
+    obs: Counter = Counter()
+    keys: set = set()
+    violations: list = []
+    ref = delivery_run(spec)
+    for k in range(1, ref.steps + (3 if case["paused"] else 0)):
+        w = World()
+        cut = None
+        try:
+            w.submit(spec)
+            steps = 0
+            paused_at = max(1, k - 2) if case["paused"] else None
+            while steps < k:
+                if paused_at is not None and steps == paused_at:
+                    w.store.pause(w.wf_id, "verif")
+                rows = w.eligible(w.rows())
+                if not rows:
+                    break
+                w.deliver(rows[0]["id"])
+                steps += 1
+            if case["paused"]:
+                # let the paused workflow park, then unpause: ResumeStage messages are queued
+                for _ in range(40):
+                    rows = w.eligible(w.rows())
+                    if not rows:
+                        break
+                    w.deliver(rows[0]["id"])
+                wf = w.store.retrieve(w.wf_id)
+                if wf.status.name != "PAUSED":
+                    continue
+                w.orch.unpause(wf)
+            rows = w.eligible(w.rows())
+            if not rows:
+                continue
+            other = rows[0]
+            w.cancel()
+            cw = [r for r in w.rows() if r["type"] == "CancelWorkflow"]
+            if not cw:
+                continue
+            path = os.path.join(il.env.scratch_dir(), f"cut-{os.getpid()}-{random.randrange(1 << 40)}.db")
+            w.store._get_connection().commit()
+            w.copy_db(path)
+            cut = (path, [other["id"], cw[0]["id"]], other["type"])
+        finally:
+            w.close()
+        if cut is None:
+            continue
+        db, rows_, otype = cut
+        try:
+            na, nb = il.solo_length(db, rows_[0]), il.solo_length(db, rows_[1])
+            scheds = il.bound_schedules(na, nb, 2, sample=case["sample"], rng=rng)
+            if len(scheds) > case["sample"] * 2:
+                scheds = scheds[:2] + rng.sample(scheds[2:], case["sample"] * 2 - 2)
+            for sc in scheds:
+                run, info = il.run_pair(db, rows_, il.Segments(sc))
+                obs["evaluations"] += 1
+                if run is None:
+                    obs["scheduler_watchdog"] += 1
+                    continue
+                obs["cancel_pair_runs"] += 1
+                if info["switches"]:
+                    keys.add(f"cancelpair:{otype}:{'paused' if case['paused'] else 'plain'}:{info['trace_hash']}")
+                    obs["cancel_pair_runs_with_switch"] += 1
+                tau = next((a["seq"] for a in run.audit if a["kind"] == "cancel" and str(a["d"]) == "1" and a["seq"] > run.since), None)
+                v = []
+                if tau is None:
+                    obs["cancel_not_accepted"] += 1
+                    continue
+                undone = [a for a in run.audit if a["kind"] == "cancel" and a["seq"] > tau and str(a["d"]) == "0"]
+                groups = oracles.Groups(run.commits)
+                if undone:
+                    v.append(viol("C17/accepted-cancel-undone", f"is_canceled went back to 0 at seq {undone[0]['seq']} (written by {groups.tag(groups.of(undone[0]['seq']))}) after the cancel was durable at seq {tau}"))
+                if not run.quiescent:
+                    v.append(viol("C17/not-quiescent", f"queue not drained after the pair + {run.steps} deliveries"))
+                elif run.state["wf"] not in oracles.COMPLETE:
+                    v.append(viol("C17/workflow-not-final", f"workflow {run.state['wf']} after cancel x {otype}; stages { {k2: v2['status'] for k2, v2 in run.state['stages'].items()} }"))
+                # everything delivered after the pair was polled after the cancel commit: none of it may run a task body
+                drained = [h for h in run.handled if h.get("commits")]
+                race_end = drained[0]["commits"][0] if drained else 1 << 60
+                for r in run.ledger:
+                    if r["seq"] > tau and r["commit"] >= race_end:
+                        v.append(viol("C17/task-started-after-cancel", f"{r['ref']}.t{r['task']} began executing at seq {r['seq']} > cancel commit {tau} in a delivery polled after it"))
+                        break
+                for x in v:
+                    x.update(pair=f"CancelWorkflow x {otype}", paused=case["paused"], step=k, schedule=sc, spec=spec["name"])
+                violations += v
+        finally:
+            os.unlink(db)
+    seen = set()
+    uniq = []
+    for x in violations:
+        if x["sig"] not in seen:
+            seen.add(x["sig"])
+            uniq.append(x)
+    return {"violations": uniq, "obs": dict(obs), "keys": sorted(keys)}
+
+
 def run_case(case: dict) -> dict:
+    if case.get("kind") == "pair":
+        return _pair(case)
     if case.get("kind") == "buffered":
         return _buffered(case)
     if case.get("kind") == "race":
